@@ -108,28 +108,7 @@ func c13(p *Prog, r *Report) {
 	r.Rule(R5, "PrivateKey.Sign returns ASN.1 SEQUENCE{INTEGER r, INTEGER s} of the (r,s) Sign produced", 1)
 	r.Rule(R6, "hashToInt identical to GOROOT crypto/ecdsa; reference verify/sign core statements embed in order in verifyGeneric/signGeneric", 3)
 
-	// ---- R1
-	if fn := anchor(p, r, R1, "~/ecdsa.Verify"); fn != nil {
-		r.List("functions", shortName(fn))
-		s := p.NewSym(fn)
-		sites := sitesIn(fn, func(n string) bool { return n == "ecdsa.verify" })
-		if len(sites) != 1 {
-			r.Fail(R1, "Verify calls the core exactly once", p.Pos(fn.Pos()), fmt.Sprintf("found %d calls to ecdsa.verify", len(sites)))
-		} else {
-			site := sites[0]
-			facts := s.ff.At(site.Block())
-			N := "call<(crypto/elliptic.Curve).Params>(param:0.Curve).N"
-			ct := s.callTerm(site)
-			okArgs := firstNonEmpty(want("public key", arg(ct, 0), "param:0"), want("hash", arg(ct, 2), "param:1"), want("r", arg(ct, 3), "param:2"), want("s", arg(ct, 4), "param:3"))
-			r.Check(okArgs == "", R1, "core receives the checked r and s", p.InstrPos(site), "verify(pub, curve, hash, r, s) with the function's own arguments", okArgs)
-			for _, v := range []struct{ name, prm string }{{"r", "param:2"}, {"s", "param:3"}} {
-				lo, _ := boundsOf(s, facts, "call<(*math/big.Int).Sign>("+v.prm+")")
-				r.Check(lo != nil && *lo >= 1, R1, v.name+".Sign() > 0 before the core", p.InstrPos(site), "dominating fact "+v.name+".Sign() >= 1", "the verification core is reachable with "+v.name+" <= 0 (no dominating "+v.name+".Sign() > 0)")
-				_, hi := boundsOf(s, facts, "call<(*math/big.Int).Cmp>("+v.prm+", "+N+")")
-				r.Check(hi != nil && *hi <= -1, R1, v.name+".Cmp(N) < 0 before the core", p.InstrPos(site), "dominating fact "+v.name+" < N", "the verification core is reachable with "+v.name+" >= N (no dominating "+v.name+".Cmp(N) < 0 with N = pub.Curve.Params().N)")
-			}
-		}
-	}
+	ecdsaVerifyRangeChecks(p, r, R1)
 
 	// ---- R2
 	if fn := anchor(p, r, R2, "~/ecdsa.VerifyASN1"); fn != nil {
@@ -465,4 +444,32 @@ func (p *Prog) randLeaks(fn *ssa.Function, prm *ssa.Parameter, seen map[*ssa.Par
 	}
 	visit(prm)
 	return leaks
+}
+
+// ecdsaVerifyRangeChecks: the verification core is reached only behind
+// 0 < r,s < N (shared with C03: with s = 0 the modular inverse is nil and the
+// core dereferences it).
+func ecdsaVerifyRangeChecks(p *Prog, r *Report, R1 string) {
+	if fn := anchor(p, r, R1, "~/ecdsa.Verify"); fn != nil {
+		r.List("functions", shortName(fn))
+		s := p.NewSym(fn)
+		sites := sitesIn(fn, func(n string) bool { return n == "ecdsa.verify" })
+		if len(sites) != 1 {
+			r.Fail(R1, "Verify calls the core exactly once", p.Pos(fn.Pos()), fmt.Sprintf("found %d calls to ecdsa.verify", len(sites)))
+		} else {
+			site := sites[0]
+			facts := s.ff.At(site.Block())
+			N := "call<(crypto/elliptic.Curve).Params>(param:0.Curve).N"
+			ct := s.callTerm(site)
+			okArgs := firstNonEmpty(want("public key", arg(ct, 0), "param:0"), want("hash", arg(ct, 2), "param:1"), want("r", arg(ct, 3), "param:2"), want("s", arg(ct, 4), "param:3"))
+			r.Check(okArgs == "", R1, "core receives the checked r and s", p.InstrPos(site), "verify(pub, curve, hash, r, s) with the function's own arguments", okArgs)
+			for _, v := range []struct{ name, prm string }{{"r", "param:2"}, {"s", "param:3"}} {
+				lo, _ := boundsOf(s, facts, "call<(*math/big.Int).Sign>("+v.prm+")")
+				r.Check(lo != nil && *lo >= 1, R1, v.name+".Sign() > 0 before the core", p.InstrPos(site), "dominating fact "+v.name+".Sign() >= 1", "the verification core is reachable with "+v.name+" <= 0 (no dominating "+v.name+".Sign() > 0)")
+				_, hi := boundsOf(s, facts, "call<(*math/big.Int).Cmp>("+v.prm+", "+N+")")
+				r.Check(hi != nil && *hi <= -1, R1, v.name+".Cmp(N) < 0 before the core", p.InstrPos(site), "dominating fact "+v.name+" < N", "the verification core is reachable with "+v.name+" >= N (no dominating "+v.name+".Cmp(N) < 0 with N = pub.Curve.Params().N)")
+			}
+		}
+	}
+
 }
